@@ -155,3 +155,39 @@ Proof.
   - cbn. discriminate.
   - cbn. discriminate.
 Qed.
+
+(** * The instant of the deadline
+
+    findExpiredLease uses Expiry.Before(now) and GetLeases Expiry.After(now),
+    both strict: at the very instant of its deadline a dynamic lease is not
+    reported as active any more and is not yet recycled; one nanosecond later
+    it is recycled. *)
+Lemma deadline_instant l s :
+  l_static l = false -> In l (leases s) ->
+  expired (l_exp l) l = false /\ ~ In l (active (l_exp l) s) /\ expired (l_exp l + 1) l = true.
+Proof.
+  intros Hs Hin. unfold expired, active. rewrite Hs. cbn [negb andb]. repeat split.
+  - apply Z.ltb_irrefl.
+  - rewrite filter_In, Hs, Z.ltb_irrefl. cbn. intros [_ H]. discriminate.
+  - apply Z.ltb_lt. lia.
+Qed.
+
+(** With the pool exhausted the FIRST expired dynamic lease of the table is
+    the one handed on (whatever its address), static leases never. *)
+Lemma recycled_is_first_expired c now mac s i :
+  next_ip c s = None -> snd (reserve c now mac s) = RsAt i ->
+  exists l, nth_error (leases s) i = Some l /\ expired now l = true /\
+    forall j l', (j < i)%nat -> nth_error (leases s) j = Some l' -> expired now l' = false.
+Proof.
+  intros En. unfold reserve. rewrite En.
+  destruct (find_expired now (leases s)) as [[j l]|] eqn:Ef; cbn [snd]; [|discriminate].
+  intros E; inversion E; subst j; clear E. unfold find_expired in Ef.
+  exists l. destruct (find_index_some _ _ _ _ Ef) as [Ei Ee]. repeat split; auto.
+  revert i l Ef Ei Ee. induction (leases s) as [|a L IH]; intros i l Ef Ei Ee j l' Hj Ej; [destruct i; discriminate|].
+  cbn in Ef. destruct (expired now a) eqn:Ea.
+  - inversion Ef; subst. lia.
+  - destruct (find_index (expired now) L) as [[k x]|] eqn:Ek; [|discriminate].
+    inversion Ef; subst. destruct j; cbn in Ej; [inversion Ej; subst; exact Ea|].
+    destruct (find_index_some _ _ _ _ Ek) as [Ek1 Ek2].
+    eapply (IH k l eq_refl Ek1 Ek2 j l'); [lia|exact Ej].
+Qed.
